@@ -364,3 +364,50 @@ func (g *SchemaGen) Schema() *gq.SchemaDesc {
 	}
 	return s
 }
+
+// ShareRoot turns a schema with separate query and mutation roots into one whose mutation root is the very same object
+// type as the query root (NewSchema accepts one *Object in both roles): the mutation root's fields move to the query
+// root, the separate mutation type disappears, and the description names the query root as mutation root as well
+// (gq.Build looks roots up by name, so the real schema gets the same *graphql.Object twice). Reports whether it did
+// (not when there is no mutation root, the roots already coincide, a field name would clash, or something refers to
+// the mutation type by name).
+func ShareRoot(s *gq.SchemaDesc) bool {
+	if s.Mutation == nil || *s.Mutation == s.Query {
+		return false
+	}
+	mn := *s.Mutation
+	q, m := s.Type(s.Query), s.Type(mn)
+	if q == nil || m == nil || len(m.Interfaces) > 0 || (s.Subscription != nil && *s.Subscription == mn) {
+		return false
+	}
+	for _, f := range m.Fields {
+		for _, qf := range q.Fields {
+			if qf.Name == f.Name {
+				return false
+			}
+		}
+	}
+	for _, t := range s.Types {
+		for _, f := range t.Fields {
+			if te, err := gq.ParseType(f.Type); err != nil || te.NamedName() == mn {
+				return false
+			}
+		}
+		for _, mem := range t.Members {
+			if mem == mn {
+				return false
+			}
+		}
+	}
+	q.Fields = append(q.Fields, m.Fields...)
+	var types []gq.TypeDesc
+	for _, t := range s.Types {
+		if t.Name != mn {
+			types = append(types, t)
+		}
+	}
+	s.Types = types
+	qn := s.Query
+	s.Mutation = &qn
+	return true
+}
